@@ -70,6 +70,11 @@ def family(path):
     return getattr(importlib.import_module("pydrobert.speech." + mod), name)
 
 
+def names_of(aliases):
+    """the alias NAMES a class declares: a collection of strings; a bare string is one name, never a set of fragments"""
+    return {aliases} if isinstance(aliases, str) else set(aliases)
+
+
 def walk(root):
     out, stack = [], [root]
     while stack:
@@ -121,9 +126,9 @@ class Mon:
         for c in walk(root):
             own = c.__dict__.get("aliases")
             try:
-                if own is not None and alias in own:
+                if own is not None and alias in names_of(own):
                     cands.append(c)
-                elif own is None and alias in c.aliases:
+                elif own is None and alias in names_of(c.aliases):
                     return "ambiguous"
             except TypeError:
                 return "ambiguous"
@@ -205,7 +210,7 @@ def registry_part(mon, rec):
             if kwargs is None:
                 rec.count("registry_classes_without_known_minimal_arguments")
                 continue
-            for alias in sorted(own):
+            for alias in sorted(names_of(own)):
                 n += 1
                 if alias in seen and seen[alias] is not cls:
                     rec.count("registry_alias_collisions")
@@ -217,9 +222,12 @@ def registry_part(mon, rec):
                     continue
                 rec.count("registry_pairs_checked")
                 rec.nt(("registry", fam.__name__, cls.__name__, alias))
-                if type(obj) is not cls and alias not in {a for c2 in walk(fam) if c2 is not cls and mon.seq.get(c2, 0) > mon.seq.get(cls, 0) for a in (c2.__dict__.get("aliases") or ())}:
+                if type(obj) is not cls and alias not in {a for c2 in walk(fam) if c2 is not cls and mon.seq.get(c2, 0) > mon.seq.get(cls, 0) for a in (names_of(c2.__dict__.get("aliases") or ()))}:
                     mon.v("%s.from_alias(%r) built %s, the alias belongs to %s" % (fam.__name__, alias, type(obj).__name__, cls.__name__), check="registry", root=fam.__name__, alias=alias)
-        for bad in ("", "no-such-alias", "MEL", " mel", "mel "):
+        frags = set()
+        for a in seen:
+            frags |= {a[:-1], a[1:], a[1:-1], a[: len(a) // 2], a + "s", a.upper()}
+        for bad in sorted({"", "no-such-alias", "MEL", " mel", "mel "} | frags):
             if bad in seen:
                 continue
             try:
